@@ -22,6 +22,9 @@ XMLCh vx_pooled[CAP + 1];
 // the document object is raw storage (its class is not in the closure): give it a vtable that serves the one virtual the code under test
 // calls on it, getRanges(); the slot is taken from the pointer-to-member (Itanium ABI: 1 + byte offset into the vtable)
 extern "C" void* vx_getRanges(void*) { return 0; }      // no Range objects registered on the document
+// tells the translator that virtual calls through the slot of DOMDocumentImpl::getRanges may land in vx_getRanges (see ir2c vtable_slots)
+typedef Ranges* (DOMDocumentImpl::*VxGR)() const;
+extern "C" { extern const VxGR vx_vslot_vx_getRanges; __attribute__((used)) const VxGR vx_vslot_vx_getRanges = &DOMDocumentImpl::getRanges; }
 static void* vx_docvt[200];
 extern "C" void harness_chardata(void) {
   VxMM mm; XMLPlatformUtils::fgMemoryManager = &mm;
